@@ -35,7 +35,12 @@ impl AnyBuf {
 }
 
 fn create(rng: &mut Rng) -> Result<AnyBuf, String> {
-    let pages = *rng.pick(&[1usize, 1, 2, 3, 8]);
+    // mostly small; now and then the sizes real streams have (1 MiB, 2 MiB, the
+    // 4 096 000-byte default), where huge-page placement and alignment come into play
+    let pages = if rng.chance(1, 40) { *rng.pick(&[256usize, 512, 1000]) } else { *rng.pick(&[1usize, 1, 2, 3, 8]) };
+    if pages >= 256 {
+        BIG_STREAMS.fetch_add(1, std::sync::atomic::Ordering::SeqCst);
+    }
     let size = pages * rec::PAGE;
     Ok(match rng.below(4) {
         0 => AnyBuf::A(Arc::new(Buffer::new(size).map_err(|e| e.to_string())?)),
@@ -79,6 +84,7 @@ fn alias_check(b: &AnyBuf, rng: &mut Rng, rep: &mut Report) -> Option<String> {
     None
 }
 
+static BIG_STREAMS: std::sync::atomic::AtomicU64 = std::sync::atomic::AtomicU64::new(0);
 static REFUSED_IN_HISTORIES: std::sync::atomic::AtomicU64 = std::sync::atomic::AtomicU64::new(0);
 static POISONED_IN_HISTORIES: std::sync::atomic::AtomicU64 = std::sync::atomic::AtomicU64::new(0);
 
@@ -190,6 +196,7 @@ fn histories(opts: &Opts, rep: &mut Report) {
             }
         }
         rep.count("streams_created", created);
+        rep.count("streams_of_1MiB_and_more", BIG_STREAMS.swap(0, std::sync::atomic::Ordering::SeqCst));
         rep.count("refused_creations_during_histories", REFUSED_IN_HISTORIES.swap(0, std::sync::atomic::Ordering::SeqCst));
         rep.count("streams_dropped_after_a_contained_panic_under_their_lock", POISONED_IN_HISTORIES.swap(0, std::sync::atomic::Ordering::SeqCst));
         rep.max("live_streams", peak.load(std::sync::atomic::Ordering::SeqCst) as u64);
